@@ -54,23 +54,6 @@ fn qualify(t: &mut Ty, paths: &BTreeMap<String, Vec<String>>) {
         _ => {}
     }
 }
-fn for_types_mut(it: &mut Item, f: &mut dyn FnMut(&mut Ty)) {
-    match &mut it.kind {
-        Kind::Struct { shape: Shape::Named(fs), .. } => fs.iter_mut().for_each(|x| f(&mut x.ty)),
-        Kind::Struct { shape: Shape::Newtype(t), .. } => f(t),
-        Kind::Enum { variants, .. } => {
-            for v in variants.iter_mut() {
-                match &mut v.payload {
-                    Payload::Newtype(t) => f(t),
-                    Payload::Struct { fields, .. } => fields.iter_mut().for_each(|x| f(&mut x.ty)),
-                    _ => {}
-                }
-            }
-        }
-        Kind::Alias { ty } | Kind::Const { ty, .. } => f(ty),
-        _ => {}
-    }
-}
 fn refs_of(it: &Item) -> BTreeSet<String> {
     let mut out = BTreeSet::new();
     crate::c01_05::for_all_types(std::slice::from_ref(it), &mut |t| {
